@@ -14,6 +14,8 @@ import (
 	"context"
 	"encoding/json"
 	"fmt"
+	"os"
+	"path/filepath"
 	"sort"
 	"strings"
 	"sync"
@@ -33,7 +35,8 @@ type c19KV struct {
 }
 
 type c19Op struct {
-	K   string  `json:"k"` // put | del | txn | delprefix | sleep | mute | unmute | cancel | restart
+	K   string  `json:"k"`           // put | del | txn | delprefix | sleep | mute | unmute | cancel | restart | stop | start
+	M   int     `json:"m,omitempty"` // stop/start: member whose etcd server is stopped/started (multi-member cluster)
 	Key string  `json:"key,omitempty"`
 	Val string  `json:"val,omitempty"`
 	KVs []c19KV `json:"kvs,omitempty"`
@@ -49,9 +52,10 @@ type c19Sub struct {
 }
 
 type c19In struct {
-	PullMs int      `json:"pull_ms"`
-	Ops    []c19Op  `json:"ops"`
-	Subs   []c19Sub `json:"subs"`
+	Members int      `json:"members,omitempty"` // >1: static cluster of that many members on one host
+	PullMs  int      `json:"pull_ms"`
+	Ops     []c19Op  `json:"ops"`
+	Subs    []c19Sub `json:"subs"`
 }
 
 type c19SubObs struct {
@@ -62,6 +66,8 @@ type c19SubObs struct {
 type c19Obs struct {
 	Subs []c19SubObs `json:"subs"`
 	Bad  string      `json:"bad,omitempty"` // harness-level failure (never a pass)
+	// multi-member cluster: size of the endpoint list of the etcd client of the member the syncer lives on
+	Endpoints int `json:"endpoints,omitempty"`
 	// informational only (not compared): fault counters
 	Dropped int64 `json:"info_dropped_watch_responses"`
 	Cancels int64 `json:"info_injected_cancels"`
@@ -69,7 +75,7 @@ type c19Obs struct {
 
 func c19IsWrite(k string) bool { return k == "put" || k == "del" || k == "txn" || k == "delprefix" }
 func c19IsFault(k string) bool {
-	return k == "mute" || k == "unmute" || k == "cancel" || k == "restart"
+	return k == "mute" || k == "unmute" || k == "cancel" || k == "restart" || k == "stop" || k == "start"
 }
 
 // ---- fault injection on the watch stream of the syncer's client (harness side only)
@@ -128,12 +134,27 @@ func (f *c19Fault) interceptor() grpc.StreamClientInterceptor {
 // ---- environment: one embedded etcd per test run
 
 type c19Env struct {
-	c   *cluster
-	seq int64
+	c     *cluster   // the member the syncer lives on
+	w     *cluster   // the handle through which the harness writes and reads back (single node: c itself)
+	nodes []*cluster // multi-member cluster: all members (nodes[0] == c)
+	seq   int64
+}
+
+// c19TempDir: home of the embedded etcd members (about 120 MB each).  Inside the driver's run
+// directory rather than $TMPDIR, so that a killed test run does not leave it behind: the
+// driver removes the run directory; a normal run removes it itself.
+func c19TempDir(t *testing.T) string {
+	base := filepath.Dir(os.Getenv("VERIF_OUT"))
+	dir, err := os.MkdirTemp(base, "etcd-")
+	if err != nil {
+		return t.TempDir()
+	}
+	t.Cleanup(func() { os.RemoveAll(dir) })
+	return dir
 }
 
 func c19Start(t *testing.T) *c19Env {
-	tempDir = t.TempDir()
+	tempDir = c19TempDir(t)
 	opts, _, _ := mockMembers(1)
 	opts[0].ClusterRequestTimeout = "10s"
 	cls, err := New(opts[0])
@@ -144,7 +165,7 @@ func c19Start(t *testing.T) *c19Env {
 	if _, err := c.getClient(); err != nil {
 		t.Fatalf("c19: client: %v", err)
 	}
-	return &c19Env{c: c}
+	return &c19Env{c: c, w: c}
 }
 
 func (e *c19Env) stop() {
@@ -198,14 +219,14 @@ func (e *c19Env) read(ns string, prefix bool, target string) ([][2]string, error
 	var res [][2]string
 	err := c19Retry(func() error {
 		if prefix {
-			m, err := e.c.GetRawPrefix(ns + target)
+			m, err := e.w.GetRawPrefix(ns + target)
 			if err != nil {
 				return err
 			}
 			res = c19Content(ns, m)
 			return nil
 		}
-		kv, err := e.c.GetRaw(ns + target)
+		kv, err := e.w.GetRaw(ns + target)
 		if err != nil {
 			return err
 		}
@@ -364,7 +385,7 @@ func (e *c19Env) run(in c19In) (obs c19Obs) {
 		in.PullMs = 20
 	}
 	pull := time.Duration(in.PullMs) * time.Millisecond
-	if err := c19Retry(func() error { return e.c.DeletePrefix(ns) }); err != nil {
+	if err := c19Retry(func() error { return e.w.DeletePrefix(ns) }); err != nil {
 		bad("cleanup: %v", err)
 		return
 	}
@@ -415,6 +436,12 @@ func (e *c19Env) run(in c19In) (obs c19Obs) {
 		if err != nil {
 			bad("syncer: %v", err)
 			return
+		}
+	}
+
+	if len(e.nodes) > 1 {
+		if client, err := e.c.getClient(); err == nil {
+			obs.Endpoints = len(client.Endpoints())
 		}
 	}
 
@@ -478,17 +505,17 @@ func (e *c19Env) run(in c19In) (obs c19Obs) {
 		var err error
 		switch op.K {
 		case "put":
-			err = c19Retry(func() error { return e.c.Put(ns+op.Key, op.Val) })
+			err = c19Retry(func() error { return e.w.Put(ns+op.Key, op.Val) })
 		case "del":
-			err = c19Retry(func() error { return e.c.Delete(ns + op.Key) })
+			err = c19Retry(func() error { return e.w.Delete(ns + op.Key) })
 		case "delprefix":
-			err = c19Retry(func() error { return e.c.DeletePrefix(ns + op.Key) })
+			err = c19Retry(func() error { return e.w.DeletePrefix(ns + op.Key) })
 		case "txn":
 			kvs := map[string]*string{}
 			for _, kv := range op.KVs {
 				kvs[ns+kv.Key] = kv.Val
 			}
-			err = c19Retry(func() error { return e.c.PutAndDelete(kvs) })
+			err = c19Retry(func() error { return e.txn(kvs) })
 		case "sleep":
 			ms := op.Ms
 			if ms > 2000 {
@@ -502,7 +529,22 @@ func (e *c19Env) run(in c19In) (obs c19Obs) {
 		case "cancel":
 			atomic.AddInt64(&fault.cancelGen, 1)
 		case "restart":
-			err = e.restart(op.Ms)
+			err = e.restart(e.c, op.Ms)
+		case "stop":
+			if op.M < 0 || op.M >= len(e.nodes) {
+				bad("stop: no member %d", op.M)
+				break
+			}
+			wg := &sync.WaitGroup{}
+			wg.Add(1)
+			e.nodes[op.M].CloseServer(wg)
+			wg.Wait()
+		case "start":
+			if op.M < 0 || op.M >= len(e.nodes) {
+				bad("start: no member %d", op.M)
+				break
+			}
+			err = e.restartStart(e.nodes[op.M])
 		default:
 			bad("unknown op %q", op.K)
 		}
@@ -565,27 +607,56 @@ func (e *c19Env) run(in c19In) (obs c19Obs) {
 			bad("sub %d: channel not closed after Close()", i)
 		}
 	}
-	if err := c19Retry(func() error { return e.c.DeletePrefix(ns) }); err != nil {
+	if err := c19Retry(func() error { return e.w.DeletePrefix(ns) }); err != nil {
 		bad("cleanup: %v", err)
 	}
 	return
 }
 
-func (e *c19Env) restart(ms int) error {
+// txn: PutAndDelete of the cluster handle (needs the member's lease even when it does not use
+// it); through the bare writer handle of the multi-member environment the same transaction
+// is issued directly
+func (e *c19Env) txn(kvs map[string]*string) error {
+	if e.w == e.c {
+		return e.w.PutAndDelete(kvs)
+	}
+	client, err := e.w.getClient()
+	if err != nil {
+		return err
+	}
+	var ops []clientv3.Op
+	for k, v := range kvs {
+		if v != nil {
+			ops = append(ops, clientv3.OpPut(k, *v))
+		} else {
+			ops = append(ops, clientv3.OpDelete(k))
+		}
+	}
+	ctx, cancel := e.w.requestContext()
+	defer cancel()
+	_, err = client.Txn(ctx).Then(ops...).Commit()
+	return err
+}
+
+func (e *c19Env) restart(c *cluster, ms int) error {
 	wg := &sync.WaitGroup{}
 	wg.Add(1)
-	e.c.CloseServer(wg)
+	c.CloseServer(wg)
 	wg.Wait()
 	if ms > 5000 {
 		ms = 5000
 	}
 	time.Sleep(time.Duration(ms) * time.Millisecond)
+	return e.restartStart(c)
+}
+
+func (e *c19Env) restartStart(c *cluster) error {
 	// the listen ports were free a moment ago; should some other process on this machine have
 	// grabbed one in between, keep trying for a while
 	var done, timeout chan struct{}
 	var err error
 	for try := 0; ; try++ {
-		done, timeout, err = e.c.StartServer()
+		done, timeout, err = c.StartServer()
 		if err == nil {
 			break
 		}
@@ -785,9 +856,90 @@ func c19GenCase(r *vfRand, adv bool, withRestart bool) c19In {
 	return in
 }
 
+// ---- endpoint list of the etcd client that cluster.getClient builds for a static initial
+// cluster (no server is started): it must cover every member of cluster.initial-cluster.
+
+type c19EpIn struct {
+	Members  int  `json:"members"`
+	SameHost bool `json:"same_host"` // all members on localhost (ports differ) / one host name per member
+}
+
+type c19EpObs struct {
+	Endpoints int    `json:"endpoints"` // len(client.Endpoints())
+	Covers    bool   `json:"covers"`    // every peer URL of the initial cluster is an endpoint, no duplicates
+	Bad       string `json:"bad,omitempty"`
+}
+
+func c19Endpoints(in c19EpIn) (obs c19EpObs) {
+	defer func() {
+		if r := recover(); r != nil {
+			obs.Bad = fmt.Sprintf("panic: %v", r)
+		}
+	}()
+	if in.Members < 1 || in.Members > 9 {
+		obs.Bad = "members out of range"
+		return
+	}
+	opts, _, _ := mockStaticClusterMembers(in.Members)
+	opt := opts[0]
+	if !in.SameHost {
+		i := 0
+		ic := map[string]string{}
+		for name, u := range opt.Cluster.InitialCluster {
+			i++
+			ic[name] = strings.Replace(u, "localhost", fmt.Sprintf("member-%d.c19.invalid", i), 1)
+		}
+		opt.Cluster.InitialCluster = ic
+	}
+	c := &cluster{opt: opt, requestTimeout: time.Second, done: make(chan struct{})}
+	client, err := c.getClient()
+	if err != nil {
+		obs.Bad = fmt.Sprintf("getClient: %v", err)
+		return
+	}
+	defer c.closeClient()
+	eps := client.Endpoints()
+	obs.Endpoints = len(eps)
+	have := map[string]int{}
+	for _, e := range eps {
+		have[e]++
+	}
+	obs.Covers = true
+	for _, u := range opt.Cluster.InitialCluster {
+		if have[u] != 1 {
+			obs.Covers = false
+		}
+	}
+	return
+}
+
+func c19EmitEndpoints(out *vfOut) {
+	for _, sc := range vfStored("endpoints") {
+		var in c19EpIn
+		if err := json.Unmarshal(sc.In, &in); err != nil {
+			panic(err)
+		}
+		out.Emit(vfCase{ID: sc.ID, Src: sc.Src, Grp: "endpoints", In: in, Obs: c19Endpoints(in)})
+	}
+	if vfReplayOnly() {
+		return
+	}
+	for _, n := range []int{1, 2, 3, 5, 7} {
+		for _, same := range []bool{true, false} {
+			in := c19EpIn{Members: n, SameHost: same}
+			out.Emit(vfCase{ID: fmt.Sprintf("gen-endpoints-%d-%v", n, same), Src: "gen", Grp: "endpoints", In: in, Obs: c19Endpoints(in)})
+		}
+	}
+}
+
 func TestVerifC19(t *testing.T) {
 	out := vfOpen(t)
 	defer out.Close()
+	tempDir = c19TempDir(t)
+	c19EmitEndpoints(out)
+	if vfReplayOnly() && len(vfStored("sync")) == 0 {
+		return
+	}
 	env := c19Start(t)
 	defer env.stop()
 
